@@ -24,6 +24,8 @@ ShapeOps  == {"+", "-", "*", "/", "**"}
 PairCmps  == {"<", ">=", "=="}
 LtOnly    == {"<"}
 VerbSet   == {"len( 'a  b' )", "2  *  3"}
+NoForms   == {}
+BothForms == {"line", "fence"}
 AndOr     == {"and", "or"}
 AllCmps   == {"<", "<=", ">", ">=", "==", "!="}
 FortIdxs  == {0, -1, 1}
@@ -59,6 +61,7 @@ EmitRec == [stmts |-> stmts,
             modelnames |-> ModelNames, lags |-> Lags, leads |-> Leads,
             evalorder |-> IF Rejected THEN <<>> ELSE EvalOrder,
             events |-> IF Rejected THEN <<>> ELSE Events,
+            verbat |-> verbat, codeorder |-> IF Rejected THEN <<>> ELSE CodeOrder,
             opts |-> OptTable]
 EmitInv == Done => PrintT(ToJson(EmitRec))
 =============================================================================
